@@ -140,6 +140,12 @@ class _Run:
         md = {}
         for k, v in event.metadata.items():
             md[k] = v
+        try:
+            multi = list(event.metadata.getall("x-multi", [])) + list(event.metadata.getall("x-multi-bin", []))
+        except AttributeError:
+            multi = [v for k, v in event.metadata.items() if k in ("x-multi", "x-multi-bin")]
+        if multi:
+            md["x-multi*"] = multi
         self.recv_events.append(dict(route=event.method_name, remaining=None if dl is None else dl.time_remaining(),
                                      metadata=md, at=self.loop.time(), matched=False))
 
@@ -302,7 +308,16 @@ class _Run:
             def form(d):
                 if d is None:
                     return None
-                return d if cfg["md_form"] == 0 else list(d.items())
+                if cfg["md_form"] == 0:
+                    return d
+                pairs = list(d.items())
+                if d:
+                    # a list of pairs may repeat a key (gRPC metadata is a multimap): every value must arrive, in order
+                    lvl = d["x-level"]
+                    pairs += [("x-multi", lvl + "-1"), ("x-multi", lvl + "-2"),
+                              ("x-multi-bin", b"\x01" + lvl.encode()), ("x-multi-bin", b"\x02" + lvl.encode())]
+                    self.stats["probe:metadata-pairs-with-a-repeated-key"] += 1
+                return pairs
             key = (ti, sd.package, sd.name)
             if share_stubs and key in shared:
                 # one stub object serves several calls of this task: its stub-level values were drawn once
@@ -745,6 +760,12 @@ class _Run:
                     continue
                 if m.get("x-blob-bin") != b"\x00\xff" + eff_md.encode():
                     problems.append(f"binary metadata value {m.get('x-blob-bin')!r} differs from what the {eff_md} level set")
+                    continue
+                want_multi = ([eff_md + "-1", eff_md + "-2", b"\x01" + eff_md.encode(), b"\x02" + eff_md.encode()]
+                              if c.cfg["md_form"] == 1 else None)
+                if m.get("x-multi*") != want_multi:
+                    problems.append(f"values of the repeated metadata keys arrived as {m.get('x-multi*')!r}, the caller's "
+                                    f"{eff_md}-level pairs carry {want_multi!r}")
                     continue
             r = e["remaining"]
             if exp_remaining is None:
